@@ -509,7 +509,24 @@ pub fn run(cfg: &Cfg) -> Report {
     let extra: Vec<MSym> = symbols.iter().step_by(37).map(|s| s.renumbered(&rng.perm1(s.n))).collect();
     symbols.extend(extra);
     symbols.extend(gen::corpus());
-    let valid_texts: Vec<(String, usize)> = symbols.iter().step_by(cfg.tier.pick(23, 7)).map(|m| (m.to_text(), m.n)).collect();
+    // branching numbers at representation boundaries (2^8, 2^16, 2^31, 2^32, 2^53 ...), on small sets
+    {
+        let mut rng = Rng::stream(seed, 0x01_b0);
+        let small: Vec<MSym> = gen::connected_sets_upto(2, 3).into_iter().chain(gen::connected_sets_upto(3, 2)).collect();
+        for s in &small {
+            for _ in 0..cfg.tier.pick(6, 40) {
+                symbols.push(gen::random_branching(&mut rng, s, gen::BOUNDARY_VS));
+            }
+        }
+        // large structured sets (flags of polyhedra, projective-plane and torus maps, regular 4-polytopes)
+        for (_, s) in gen::structured_2d_sets().into_iter().chain(gen::structured_3d_sets()) {
+            symbols.push(gen::random_branching(&mut rng, &s, &[1, 2, 3, 12, 255, 256, 65536]));
+            symbols.push(s.renumbered(&rng.perm1(s.n)));
+        }
+        // beyond 2^16 chambers
+        symbols.push(gen::strip_2d(cfg.tier.pick(65_540, 140_000), true));
+    }
+    let valid_texts: Vec<(String, usize)> = symbols.iter().filter(|m| m.n <= 400).step_by(cfg.tier.pick(23, 7)).map(|m| (m.to_text(), m.n)).collect();
     let ctx = par_items(cfg, &symbols, |ctx, k, m| {
         judge_round_trip(ctx, m);
         if k % 5000 == 0 {
